@@ -279,3 +279,131 @@ def ds_expr(rnd, kind, names, depth, mono):
     if r < 0.8:
         return {'k': 'bin', 'op': rnd.choice(['and', 'or', 'xor']), 'l': ds_expr(rnd, kind, names, depth - 1, mono), 'r': const(rnd.choice([B(True), B(False), NULL]))}
     return {'k': 'un', 'op': 'not', 'x': ds_expr(rnd, kind, names, depth - 1, mono)}
+
+
+# ---- clause chains (C02) ------------------------------------------------------------------------
+
+def random_clause(rnd, comps, allow_aggr=False):
+    """One random clause applicable to a dataset with components `comps`; returns (clause items dict, new comps)."""
+    ids = [c for c in comps if c['r'] == 'I']
+    nonid = [c for c in comps if c['r'] != 'I']
+    names = {c['n'] for c in comps}
+    visible = [c for c in comps if c['r'] != 'A' or True]
+    kinds = ['filter', 'filter', 'calc', 'calc', 'calc']
+    if nonid:
+        kinds += ['keep', 'rename']
+    if len(nonid) > 1:
+        kinds += ['drop']
+    if len(ids) > 1:
+        kinds += ['sub']
+    if ids:
+        kinds += ['rename_id']
+    kind = rnd.choice(kinds)
+    if kind == 'filter':
+        for _ in range(20):
+            e, _ = bool_expr(rnd, visible, rnd.choice([1, 2, 3]))
+            if has_var(e):
+                break
+        else:
+            e = {'k': 'un', 'op': 'isnull', 'x': var(comps[0]['n'])}
+        return {'op': 'filter', 'items': [e]}, comps
+    if kind == 'calc':
+        items, new = [], list(comps)
+        used = set()
+        for j in range(rnd.choice([1, 1, 2])):
+            for _ in range(20):
+                e, ty = comp_expr(rnd, visible, rnd.choice([1, 2, 3]))
+                if has_var(e):
+                    break
+            else:
+                e, ty = var(comps[0]['n']), comps[0]['t']
+            cand = [c['n'] for c in nonid if c['n'] not in used] + ['New_%d' % (len(names) + j)]
+            nm = rnd.choice(cand)
+            used.add(nm)
+            role = rnd.choice(['M', 'M', 'M', 'A'])
+            items.append({'name': nm, 'role': role, 'expr': e})
+            new = [c for c in new if c['n'] != nm] + [{'n': nm, 'r': role, 't': ty}]
+        return {'op': 'calc', 'items': items}, new
+    if kind == 'keep':
+        ks = rnd.sample([c['n'] for c in nonid], rnd.randrange(1, len(nonid) + 1))
+        return {'op': 'keep', 'items': ks}, [c for c in comps if c['r'] in ('I', 'V') or c['n'] in ks]
+    if kind == 'drop':
+        ks = rnd.sample([c['n'] for c in nonid], rnd.randrange(1, len(nonid)))
+        return {'op': 'drop', 'items': ks}, [c for c in comps if c['n'] not in ks]
+    if kind in ('rename', 'rename_id'):
+        src = rnd.choice(nonid if kind == 'rename' else ids)
+        to = 'R_%d' % len(names)
+        while to in names:
+            to += 'x'
+        return {'op': 'rename', 'items': [[src['n'], to]]}, [dict(c, n=to) if c['n'] == src['n'] else c for c in comps]
+    # sub on one identifier with a value from its key space
+    i = rnd.choice(ids)
+    v = I(rnd.randrange(1, 4)) if i['t'] == 'Integer' else S(rnd.choice(['a', 'b', 'c']))
+    return {'op': 'sub', 'items': [[i['n'], v]]}, [c for c in comps if c['n'] != i['n']]
+
+
+def random_chain_units(rnd, n, maxlen=4):
+    units = []
+    for i in range(n):
+        nid = rnd.choice([1, 2, 2, 3])
+        ids = [('Id_1', 'Integer'), ('Id_2', 'String'), ('Id_3', 'Integer')][:nid]
+        meas = [('Me_%d' % (j + 1), rnd.choice(['Integer', 'Number', 'String', 'Boolean'])) for j in range(rnd.choice([1, 2, 3]))]
+        ds = random_ds(rnd, 'DS_1', ids, meas, attrs=True)
+        comps = list(ds['comps'])
+        t = var('DS_1')
+        for _ in range(rnd.randrange(1, maxlen + 1)):
+            cl, comps = random_clause(rnd, comps)
+            t = dict(cl, k='clause', ds=t)
+        units.append({'id': 'c%d' % i, 'env': {'DS_1': ds}, 'term': t, 'cc': True})
+    return units
+
+
+# ---- aggregations (C03) --------------------------------------------------------------------------
+AGG_OPS = ['sum', 'avg', 'count', 'min', 'max', 'median', 'stddev_pop', 'stddev_samp', 'var_pop', 'var_samp']
+
+
+def random_agg_units(rnd, n, maxrows=200):
+    units = []
+    for i in range(n):
+        nid = rnd.choice([1, 2, 3, 3])
+        ids = [('Id_1', 'Integer'), ('Id_2', 'String'), ('Id_3', 'Integer')][:nid]
+        nm = rnd.choice([1, 2])
+        meas = [('Me_%d' % (j + 1), rnd.choice(['Integer', 'Number'])) for j in range(nm)]
+        nrows = rnd.choice([0, 1, 2, 3, 5, 8, 12, 20, 40, maxrows])
+        ks = rnd.choice([2, 3, 4]) if nrows <= 40 else 7
+        ds = random_ds(rnd, 'DS_1', ids, meas, nrows=nrows, keyspace=ks)
+        idn = [x[0] for x in ids]
+        mode = rnd.choice(['none', 'by', 'by', 'except'])
+        group = []
+        if mode == 'by':
+            group = rnd.sample(idn, rnd.randrange(1, len(idn) + 1))
+        elif mode == 'except':
+            if len(idn) < 2:
+                mode, group = 'by', list(idn)
+            else:
+                group = rnd.sample(idn, rnd.randrange(1, len(idn)))     # leaves at least one identifier
+        op = rnd.choice(AGG_OPS)
+        if nrows > 40 and op in ('var_pop', 'var_samp', 'stddev_pop', 'stddev_samp', 'median', 'avg'):
+            op = rnd.choice(['sum', 'count', 'min', 'max'])      # keep exact rational arithmetic within 32 bits
+        having = []
+        if mode != 'none' and rnd.random() < 0.35:
+            h = rnd.choice([('count', {'k': 'none'}, I(rnd.choice([1, 2]))), ('sum', var('Me_1'), I(0)), ('max', var('Me_1'), I(2)), ('min', var('Me_1'), I(0))])
+            having = [{'k': 'bin', 'op': rnd.choice(['>', '>=', '<', '=']), 'l': {'k': 'agg', 'op': h[0], 'x': h[1]}, 'r': const(h[2])}]
+        if rnd.random() < 0.55:
+            if nm > 1:
+                having = []         # standalone having is supported for mono-measure datasets only
+            term = {'k': 'agg', 'op': op, 'x': var('DS_1'), 'mode': mode, 'group': group, 'having': having}
+        else:
+            if mode == 'none':
+                mode, group = 'by', rnd.sample(idn, rnd.randrange(1, len(idn) + 1))
+            items = []
+            for j in range(1 if having else rnd.choice([1, 2])):      # the engine supports having with a single aggr item only
+                o = op if j == 0 else rnd.choice(['sum', 'count', 'min', 'max'])
+                m = rnd.choice(meas)[0]
+                x = var(m) if rnd.random() < 0.8 else {'k': 'bin', 'op': '+', 'l': var(m), 'r': const(I(1))}
+                if o == 'count' and rnd.random() < 0.5 and not having:
+                    x = {'k': 'none'}
+                items.append({'name': 'Agg_%d' % j if rnd.random() < 0.7 else m if j == 0 else 'Agg_%d' % j, 'role': 'M', 'agg': {'k': 'agg', 'op': o, 'x': x}})
+            term = {'k': 'clause', 'op': 'aggr', 'ds': var('DS_1'), 'items': items, 'mode': mode, 'group': group, 'having': having}
+        units.append({'id': 'a%d' % i, 'env': {'DS_1': ds}, 'term': term, 'cc': True})
+    return units
